@@ -23,7 +23,7 @@ type c15case struct {
 }
 
 func runC15(c *Check, rng *rand.Rand) {
-	c.Rule = "fault enumeration with timeout=0: fault point {node closes on accept, on arrival of request i, after reading it before replying, after 1 / half / all-1 reply bytes, node down (listener closed, connections reset), MOVED/ASK naming an unknown address, node removed from CLUSTER NODES with requests waiting} x affected position i of pipelines of length <= L x {single-key, fragment of a split request} x {another client shares the backend connection}; oracle after the fault is visible and the event-loop barrier passed (re-checked after 1 s): every client is closed or holds exactly one reply per request - normal for requests on other nodes, normal or error for requests on the lost node; the proxy is alive; after the node is restored a fresh request succeeds over a connection accepted after the fault; distinct = (fault, position, length, kind, shared)"
+	c.Rule = "fault enumeration with timeout=0: fault point {node closes on accept, on arrival of request i, after reading it before replying, after 1 / half / all-1 reply bytes, node down (listener closed, connections reset), MOVED/ASK naming an unknown address, node removed from CLUSTER NODES with requests waiting (also: the node has stopped reading and 20 MB of requests are queued for it in the proxy)} x affected position i of pipelines of length <= L x {single-key, fragment of a split request} x {another client shares the backend connection}; oracle after the fault is visible and the event-loop barrier passed (re-checked after 1 s): every client is closed or holds exactly one reply per request - normal for requests on other nodes, normal or error for requests on the lost node; the proxy is alive; after the node is restored a fresh request succeeds over a connection accepted after the fault; distinct = (fault, position, length, kind, shared)"
 	c.Assumptions = []string{"bounded-progress restatement of 'never waits forever': judged in event-loop rounds after the fault became visible to the proxy, not in wall-clock time"}
 	lanes := 4
 	perLane := 5
@@ -283,20 +283,34 @@ func c15run(c *Check, rng *rand.Rand, env *Env, script *Script, nodes []*TNode, 
 	}
 	script.Forget(victimKeyOfFault)
 	served := false
+	freshTry := 0
 	var lastRep string
 	dl := time.Now().Add(12 * time.Second)
 	for time.Now().Before(dl) && env.P.Alive() {
 		fc, err := env.Dial()
 		must(err, "dial")
 		k := Key(slotOf(victim, rng), newToken("fresh"))
-		fc.Send(Req("SET", k, "v"))
+		want := StatusReply("OK")
+		if freshTry%2 == 0 {
+			// a reply that reaches the proxy in three pieces: the new connection has to park
+			// an incomplete reply (in whatever buffer the lost connection left behind)
+			want = BulkReply([]byte("v:" + k))
+			script.Plan(k).Act = func(r *BReq) Action {
+				return Action{Reply: ValueReply(r), Chunks: []int{2, 5}, ChunkPause: 3 * time.Millisecond}
+			}
+			fc.Send(Req("GET", k))
+		} else {
+			fc.Send(Req("SET", k, "v"))
+		}
+		freshTry++
 		got := fc.WaitReplies(1, 2*time.Second)
 		if got {
 			lastRep = fc.Snapshot().Replies[0].Val.String()
-			if bytes.Equal(fc.Snapshot().Replies[0].Val.Raw, StatusReply("OK")) {
+			if bytes.Equal(fc.Snapshot().Replies[0].Val.Raw, want) {
 				served = true
 			}
 		}
+		script.Forget(k)
 		fc.Close()
 		if served {
 			break
@@ -334,7 +348,7 @@ func c15run(c *Check, rng *rand.Rand, env *Env, script *Script, nodes []*TNode, 
 
 // c15removed: a node disappears from CLUSTER NODES while requests wait at its gate.
 func c15removed(c *Check, rng *rand.Rand, env *Env, script *Script) {
-	for rep := 0; rep < c.Pick(2, 10); rep++ {
+	for rep := 0; rep < c.Pick(3, 12); rep++ {
 		t := env.T
 		victim := t.Nodes[len(t.Nodes)-1] // the extra master outside the lanes
 		vn := victim.Node
@@ -347,6 +361,22 @@ func c15removed(c *Check, rng *rand.Rand, env *Env, script *Script) {
 		must(err, "dial")
 		cl.Send(append(Req("GET", k), Req("GET", k2)...))
 		env.Barrier()
+		// every other round the node has also stopped reading and megabytes of requests for
+		// it sit in the proxy's own outbound buffer when the proxy closes the connection
+		hung := rep%2 == 1
+		var big *Client
+		nbig := 0
+		if hung {
+			vn.SetPauseRead(true)
+			big, err = env.Dial()
+			must(err, "dial")
+			val := strings.Repeat("h", 512*1024)
+			for i := 0; i < 40; i++ {
+				big.Send(Req("SET", Key(slotOf(victim, rng), newToken("rmbig")), val))
+				nbig++
+			}
+			env.Barrier()
+		}
 		// new description: victim's slots go to `other`, victim gone
 		nt := &Topo{}
 		for _, tn := range t.Nodes {
@@ -381,7 +411,25 @@ func c15removed(c *Check, rng *rand.Rand, env *Env, script *Script) {
 		c.Eval(1)
 		c.Distinct(fmt.Sprintf("removed-from-topology/%d", rep))
 		if !adopted {
+			// not adopted, or not serving at all any more?
+			alive := false
+			if pc, err := env.Dial(); err == nil {
+				pc.Send(Req("PING"))
+				alive = pc.WaitReplies(1, 5*time.Second)
+				pc.Close()
+			}
+			if !alive {
+				c.Violate(Violation{Class: "proxy-stopped-serving", Shape: fmt.Sprintf("removed-from-topology/hung=%v", hung),
+					Detail:  "after a node was removed from the topology the proxy process is alive but no connection is served any more (a PING on a fresh connection stays unanswered for 5 s)",
+					Witness: map[string]interface{}{"removed_node": vn.Addr, "node_had_stopped_reading_with_requests_queued": hung, "proxy_alive": env.P.Alive()}})
+				vn.SetPauseRead(false)
+				return
+			}
 			c.Count("removal_not_adopted(C14 subject)", 1)
+			vn.SetPauseRead(false)
+			if big != nil {
+				big.Close()
+			}
 			g.Open()
 			cl.Close()
 			t.Install(env.Cl)
@@ -401,6 +449,23 @@ func c15removed(c *Check, rng *rand.Rand, env *Env, script *Script) {
 				Witness: map[string]interface{}{"received": valStrings(s.Replies), "removed_node": vn.Addr}})
 		} else {
 			c.Count("fault_cases_resolved", 1)
+		}
+		if big != nil {
+			bs := big.Snapshot()
+			if !bs.Closed && len(bs.Replies) < nbig {
+				time.Sleep(time.Second)
+				env.Barrier()
+				bs = big.Snapshot()
+			}
+			if !bs.Closed && len(bs.Replies) < nbig {
+				c.Violate(Violation{Class: "client-left-waiting", Shape: "removed-from-topology/hung-node-with-backlog",
+					Detail:  fmt.Sprintf("the removed node had stopped reading and %d x 512 KB of requests were queued for it: their client holds %d of %d replies and is not closed", nbig, len(bs.Replies), nbig),
+					Witness: map[string]interface{}{"removed_node": vn.Addr}})
+			} else {
+				c.Count("fault_cases_resolved", 1)
+			}
+			big.Close()
+			vn.SetPauseRead(false)
 		}
 		g.Open()
 		cl.Close()
